@@ -19,7 +19,7 @@ fn main() {
         rule: "the same object bytes and configuration are given to senders through: in-memory buffer, Cursor, a real File, BufReader<File>, flute's create_from_file with and without RAM cache, and a seekable ChunkedReader returning short reads on a schedule (1 byte, 7, 10, 4096, mixed, random sizes, reads interrupted by ErrorKind::Interrupted once in five calls and three times in six); boundary lattice of object sizes x 5 FEC schemes x block byte sizes below and above 8 KiB x transfer counts 1-3 x interleave 1-3; oracle (metamorphic): the object packet sequences are byte-identical to the buffer sender's (same virtual instants, same TOI), transfers 2..n equal transfer 1 apart from the close-object flag, and the chunked source saw seek(Start(0)) before every transfer; (huge_stream) No-Code stream objects of 2^32-1 .. 2^33+5 bytes whose content is a function of the offset (full and short reads): every packet of the transfer is checked against the reference partition and the content at its offset, all source symbols once, close-object flag last; a case is one object x all sources, non-trivial when object packets were compared; distinct = object shape",
         assumptions: vec![
             "sources that return errors (other than ErrorKind::Interrupted during transmission) or lie about their length are out of scope; an Interrupted read during the MD5 pass at creation makes create_from_stream fail loudly, so interrupting sources are used without MD5; stream sources cannot be combined with content encoding (flute refuses)".into(),
-            "FDT packets are not compared (File order and MD5 are the same, but instance ids are irrelevant here)".into(),
+            "FDT packets are not compared byte by byte (instance ids and Expires are irrelevant here); the announced Content-MD5 is".into(),
             "the buffer sender's stream is itself judged by C08's slicing oracle".into(),
         ],
         exhaustive: false,
@@ -105,6 +105,7 @@ fn main() {
                 sources.push(("chunked_at_end".into(), SourceSpec::ChunkedAt(vec![], len)));
             }
             let mut compared = 0u64;
+            let mut md5_compared = 0u64;
             for (name, src) in sources {
                 let kind = name.split('[').next().unwrap_or("").to_string();
                 let em = match util::guarded(|| emit(&spec, &[mk(src.clone())], &EmitOpts::default())) {
@@ -121,6 +122,17 @@ fn main() {
                 if em.tois[0].is_none() {
                     cr.violations.push(Violation::new("source_refused", format!("source {}: add_object refused ({:?}) although the buffer source is accepted", name, em.add_err[0])).with("source", kind.clone()).with("fec", fec.name()).witness(wit.clone()));
                     continue;
+                }
+                // what the FDT announces about the object must not depend on the source either: the Content-MD5 (computed
+                // by a separate pass over a stream) is compared with the buffer sender's whenever both compute one
+                if mk(src.clone()).md5 && md5 {
+                    let announced = |e: &Emitted| vh::small::fdt_views(e).iter().find_map(|v| v.xml.as_ref().and_then(|x| x.split("Content-MD5=\"").nth(1).and_then(|s| s.split('"').next()).map(|s| s.to_string())));
+                    let (a, b) = (announced(&base), announced(&em));
+                    if a.is_some() && a != b {
+                        cr.violations.push(Violation::new("announced_md5_differs", format!("source {}: the FDT announces Content-MD5 {:?}, the buffer sender's announces {:?} for the same bytes", name, b, a))
+                            .with("source", kind.clone()).with("fec", fec.name()).witness(wit.clone()));
+                    }
+                    md5_compared += 1;
                 }
                 let got = object_packets(&em);
                 compared += got.len() as u64;
@@ -193,6 +205,7 @@ fn main() {
                 }
             }
             cr.count("object_packets_compared", compared);
+            cr.count("announced_md5_compared", md5_compared);
             if compared > 0 {
                 let o = mk(SourceSpec::Buffer);
                 cr.shape = Some(util::fnv(&obj_shape(&o, &oti, base.transfer_len[0].unwrap_or(0))));
